@@ -219,6 +219,18 @@ class BehavioralRTLIRToVVisitorL2( BehavioralRTLIRToVVisitorL1 ):
     node.left._top_expr = True
     node.right._top_expr = True
 
+    # An operation on two constants was folded by the type checker; its
+    # operands keep the (narrow) widths of their own values, so re-computing it
+    # in SystemVerilog may wrap ( `a[2*N]` -> `a[2'd2 * 2'd3]` = a[2] ).
+    # Emit the folded value.
+    try:
+      value = int( node._value )
+      if value >= 0:
+        nbits = max( node.Type.get_dtype().get_length(), value.bit_length(), 1 )
+        return f"{nbits}'d{value}"
+    except (AttributeError, TypeError, ValueError):
+      pass
+
     op  = s.ops[ type( node.op ) ]
     lhs = s.visit_expr_wrap( node.left )
     rhs = s.visit_expr_wrap( node.right )
